@@ -90,6 +90,10 @@ def analyse(W, name, f, ctx, desc, path):
         items.append(("viol", "R3", f"{name}:position-not-a-point", f"{entry}: the tracked position is no longer a Point", where))
         return items
     for note in m.notes:
+        if "is not a number: Unk(" in note:
+            # the coordinate is a value the analysis lost track of (the result of something it does not model)
+            items.append(("undecided", "R3", f"{entry}: {note[:200]}"))
+            continue
         items.append(("viol", "R3", f"{name}:machine-note:{note.split(' ')[0]}", f"{entry}: {note}", where))
     bad = False
     for a in AXES:
